@@ -192,7 +192,9 @@ def apply(ex, st, c, fi, bound, node):
         if rc.ensures is not None:
             st_r.assume(clause(ex, st_r, c, rc.ensures, post_fv, old=old))
         payload = None
-        outs.append((st_r, _R(rc.exc, f"call.{key}", payload)))
+        r_abs = _R(rc.exc, f"call.{key}", payload)
+        r_abs.abstract = True
+        outs.append((st_r, r_abs))
     # normal outcome
     must_not = [z3.Not(w) for rc, w in zip(c.raises, whens) if rc.must]
     st_n = st
